@@ -3,7 +3,7 @@ import re
 
 from vlib import factbase as fb
 from vlib import q
-from .common import pname, ctx, loc
+from .common import pname, ctx, loc, str_template
 
 TRIMS = ("core::str::trim_end_matches", "core::str::trim_start_matches", "core::str::trim_matches",
          "std::str::trim_end_matches", "std::str::trim_start_matches", "std::str::trim_matches",
@@ -135,6 +135,17 @@ def rule_r3(facts, rep, rid="C14-R3"):
         lits = [x.get("v", "").split(":", 1)[1] for x in fb.walk(f.body) if x.get("k") == "lit" and str(x.get("v", "")).startswith(("s:", "bs:"))]
         if want == "{}.md":
             okl = any(".md" in l for l in lits)
+            # the name that is built, whatever builds it (format!, constants, an intermediate `file_name`): <key> + ".md"
+            cf = ctx(f)
+            if name.endswith("write_file"):
+                dest = [x["args"][1] for x in fb.calls_in(f.body) if fb.callee(x) == "std::fs::rename" and len(x.get("args", [])) > 1] or \
+                       [x["args"][0] for x in fb.calls_in(f.body) if fb.callee(x) in ("std::fs::write", "std::fs::File::create") and x.get("args")]
+                tmpl = str_template(cf, dest[0]) if dest else None
+            else:
+                tmpl = str_template(cf, f.body)
+            if tmpl and isinstance(tmpl[-1], str):
+                okl = tmpl[-1] == ".md" and len(tmpl) >= 2 and not isinstance(tmpl[-2], str)
+                lits = ["".join(p if isinstance(p, str) else "{}" for p in tmpl)]
         else:
             okl = any("/" in l for l in lits)
         if okl:
